@@ -238,7 +238,10 @@ def r19_2(rep: Report) -> None:
                         and _mentions_float(arg, tainted):
                     bad = c
         key = f'microsecond={norm(val)}'
-        digits_bad = None if bad is not None else _fraction_digits_moved(fn, val, tainted)
+        tgt_name = None
+        if isinstance(n, ast.Assign) and len(n.targets) == 1 and isinstance(n.targets[0], ast.Name):
+            tgt_name = n.targets[0].id
+        digits_bad = None if bad is not None else _fraction_digits_moved(fn, val, tainted, tgt_name)
         if bad is not None:
             rep.fail(rid, construct, key,
                      f'`{norm(bad)}` truncates a scaled binary float: decimal fractions such as '
@@ -264,14 +267,16 @@ _PLACE_VALUE_OPS = {
 }
 
 
-def _fraction_digits_moved(fn: ast.AST, val: ast.AST, tainted: set[str]):
+def _fraction_digits_moved(fn: ast.AST, val: ast.AST, tainted: set[str], target: str | None = None):
     """(node, why) when the decimal digits that are read with int(<text>) for the microsecond go through an
     operation that changes the place of a digit.  The digits are followed backwards through every definition
     of the locals involved (flow-insensitive: a reassignment `frac = frac[:6].strip('0')` is on the chain).
     Accepted on the chain: `[:6]`, `ljust(6, '0')`, `rstrip('0')`, `+ '0' * k`, split / partition / group."""
     starts = [c.args[0] for c in ast.walk(val) if isinstance(c, ast.Call) and call_name(c) == 'int' and c.args
               and not _mentions_float(c.args[0], tainted) and not isinstance(c.args[0], ast.Constant)]
-    seen_names: set[str] = set()
+    if isinstance(val, ast.Name):
+        starts.append(val)
+    seen_names: set[str] = {target} if target and starts else set()
     work = list(starts)
     for _ in range(6):
         names = {x.id for e in work for x in ast.walk(e) if isinstance(x, ast.Name)} - seen_names
@@ -286,6 +291,16 @@ def _fraction_digits_moved(fn: ast.AST, val: ast.AST, tainted: set[str]):
             elif isinstance(a_, ast.AnnAssign) and a_.value is not None and isinstance(a_.target, ast.Name) \
                     and a_.target.id in names:
                 work.append(a_.value)
+    # a number read from the digits and then scaled by its own magnitude (`while 0 < us < 100000: us *= 10`): the
+    # leading zeros of the fraction, which int() has dropped, decide the place of every digit
+    for lp in ast.walk(fn):
+        if isinstance(lp, ast.While):
+            tested = {x.id for x in ast.walk(lp.test) if isinstance(x, ast.Name)}
+            for st_ in ast.walk(lp):
+                if isinstance(st_, ast.AugAssign) and isinstance(st_.op, (ast.Mult, ast.Div, ast.FloorDiv)) \
+                        and isinstance(st_.target, ast.Name) and st_.target.id in tested and st_.target.id in seen_names:
+                    return st_, ('the value read from the digits is scaled until it is large enough: int() has dropped the '
+                                 'leading zeros of the fraction, so .000123 and .123 become the same number')
     for e in work:
         for x in ast.walk(e):
             if isinstance(x, ast.Call) and isinstance(x.func, ast.Attribute) and x.func.attr in _PLACE_VALUE_OPS \
